@@ -163,6 +163,15 @@ class SetWrapper(typing.MutableSet[T]):
             for v in arg:
                 self.add(v)
 
+    @classmethod
+    def _from_iterable(  # type: ignore[override]
+        cls, it: typing.Iterable[T]
+    ) -> typing.Set[T]:
+        # The binary operators inherited from collections.abc.Set build their
+        # result with this hook. Subclasses take an owner argument and move
+        # the nodes they are given, so the result must be a plain set.
+        return set(it)
+
     # begin functions for ABC
     def __contains__(self, v: object) -> bool:
         return v in self._data
